@@ -170,8 +170,13 @@ def run_group(g, scratch, tree):
             bad = []
             def resolve(m):
                 fn, var = m.group(1), m.group(2)
+                deepest = var.endswith("^")      # "name^": the innermost declaration of that name
+                var = var.rstrip("^")
                 c = [x for x in syms if (x.startswith(fn + "::") or x.startswith(fn + "(")) and x.endswith("::" + var)
                      and "$" not in x]
+                if deepest and len(c) > 1:
+                    m2 = max(x.count("::") for x in c)
+                    c = [x for x in c if x.count("::") == m2]
                 if len(c) != 1:
                     bad.append("%s:%s -> %r" % (fn, var, c))
                     return "UNRESOLVED"
